@@ -122,16 +122,26 @@ def main():
                 k = rng.choice([0, 1, 2, 3]) if n >= 4 else rng.choice([0, 1, 2, 3, None])
                 fg = full_game(n, v)
                 first = None
+                shared_game = None
                 for p in procs:
                     tid += 1
                     t = base(tid, n, "search", comp, r, gap, k0, scale)
                     t.update({"hid": D.exact_arr(v, scale), "k": len(expl) if k is None else k, "p": p})
-                    game = IncompleteCooperativeGame(n, computer(comp, r))
-                    game.set_known_values([v[c] for c in k0], [Coalition(c) for c in k0])
-                    if rng.random() < 0.5:
-                        game.compute_bounds()
+                    # every other configuration hands the SAME game object to the searches of all process counts, one after the other (seed
+                    # C11-g: the in-process path of one worker left the caller's game changed); a search must leave its argument as it was
+                    if shared_game is None or i % 2 == 1:
+                        game = IncompleteCooperativeGame(n, computer(comp, r))
+                        game.set_known_values([v[c] for c in k0], [Coalition(c) for c in k0])
+                        if rng.random() < 0.5:
+                            game.compute_bounds()
+                        shared_game = game
+                    else:
+                        game = shared_game
+                    known_before = [int(b) for b in game.are_values_known()]
                     try:
                         res = list(get_exploitabilities_of_action_sequences(game, fg, gapf, max_size=k, processes=p))
+                        if [int(b) for b in game.are_values_known()] != known_before:
+                            res = res[:-1]                       # reported through the enumeration clause
                         t["seqs"] = [[int(c.id) for c in seq] for seq, _ in res]
                         t["vals"] = [gap_iv(val, n, gap, scale, M) for _, val in res]
                         # the result as a mapping reveal set -> gap (the order of the list is not part of the property)
